@@ -248,7 +248,72 @@ def run(check, mirror, tier):
     mk("collect_count", 1, count_spec)
     for a in ("sum", "min", "max"):
         mk("collect_" + a, 1, aggregate_spec(a))
+    # ---- rule matching: `input in entry` for the unary tests of an input entry --------------------------------------------------
+    from checks import C09 as c09
+    ecrate = MirCrate(mirror, ["feel-evaluator", "feel"], overflow_checks=True)
+    EM = [(re.compile(r"^format$|^std::fmt::format$|^alloc::fmt::format$"), m_format_stub),
+          (re.compile(r"^is_valid_date$"), lambda ex, st, c, a, d: iter([(st, mk_bool(U.cal_valid(a[0].e, a[1].e, a[2].e)))]))] + fv.VALUE_MODELS
+    UNARY = {"UnaryLess": ("build_lt", "<"), "UnaryLessOrEqual": ("build_le", "<="), "UnaryGreater": ("build_gt", ">"), "UnaryGreaterOrEqual": ("build_ge", ">=")}
+
+    def unary(ex, st, variant, b):
+        return En("Value", z3.IntVal(U.idx(variant)), {variant: (Ref(ex.new_cell(st, b, "box")),)})
+
+    def lst(variant, items):
+        return En("Value", z3.IntVal(U.idx(variant)), {variant: (Adt("struct", "Values", (VecV(z3.IntVal(len(items)), items, "Value"),)),)})
+
+    def mk_match(oid, kind, specs_fn, post_fn):
+        def setup(ex, st):
+            vals = {n: U.fresh(ex, st, 0, n, kinds=[kind]) for n in ("x", "b", "c")}
+            return c09.n_runs(specs_fn(ex, st, vals)), None, vals
+
+        def desc(m, inputs):
+            return {k: U.describe(m, inputs[k], model_value) for k in ("x", "b", "c")}
+        jobs.append(lambda c: decide(c, ecrate, oid, setup, lambda ex, o, v: post_fn(o.value), lambda i, rb: replay_match(oid, i, rb), rb, models=EM, unwind=8,
+                                     describe=desc, budget_s=900, min_paths=1, timeout_ms=20000, known_predicates=KNOWN_PRED,
+                                     prefer=lambda inp: z3.And([U.replayable_pref(inp[k]) for k in ("x", "b", "c")])))
+
+    T = lambda r: c09.tri(U, r)
+    for kind in ("Number", "String", "Date"):
+        for variant, (cmp_builder, sym) in UNARY.items():
+            mk_match("matching/%s/in_%s" % (kind, variant), kind,
+                     lambda ex, st, v, variant=variant, cmp_builder=cmp_builder: [("build_in", [v["x"], unary(ex, st, variant, v["b"])]), (cmp_builder, [v["x"], v["b"]]),
+                                                                                  ("build_in", [v["x"], lst("NegatedCommaList", [unary(ex, st, variant, v["b"])])])],
+                     lambda r, sym=sym: [("x in %sb agrees with x %s b" % (sym, sym), z3.And(c09.is_bool_or_null(U, r[0]), T(r[0]) == T(r[1]))),
+                                         ("x in not(%sb) is its negation" % sym, z3.And(c09.is_bool_or_null(U, r[2]), z3.Implies(T(r[1]) >= 0, T(r[2]) == 1 - T(r[1]))))])
+        mk_match("matching/%s/in_value_and_list" % kind, kind,
+                 lambda ex, st, v: [("build_in", [v["x"], v["b"]]), ("build_eq", [v["x"], v["b"]]), ("build_eq", [v["x"], v["c"]]),
+                                    ("build_in", [v["x"], lst("ExpressionList", [v["b"], v["c"]])]),
+                                    ("build_in", [v["x"], lst("NegatedCommaList", [v["b"], v["c"]])])],
+                 lambda r: [("x in b agrees with x = b", T(r[0]) == z3.If(T(r[1]) == 1, 1, 0)),
+                            ("x in (b, c) is the disjunction of the tests", T(r[3]) == z3.If(z3.Or(T(r[1]) == 1, T(r[2]) == 1), 1, 0))] +
+                           ([("x in not(b, c) is the negation of the disjunction", T(r[4]) == z3.If(z3.Or(T(r[1]) == 1, T(r[2]) == 1), 0, 1))] if kind != "Date" else []))
     run_parallel(check, jobs)
+
+
+def replay_match(oid, i, rb):
+    if not all(fv.replayable(i[k]) for k in ("x", "b", "c")):
+        return False, "not expressible"
+    t = {k: fv.feel_text(i[k]) for k in ("x", "b", "c")}
+    variant = oid.split("/in_")[-1]
+    sym = {"UnaryLess": "<", "UnaryLessOrEqual": "<=", "UnaryGreater": ">", "UnaryGreaterOrEqual": ">="}.get(variant)
+    # unary tests are only written inside decision table entries / `in (...)`: evaluate through `x in (tests)`
+    if sym:
+        exprs = ["%s in (%s %s)" % (t["x"], sym, t["b"]), "%s %s %s" % (t["x"], sym, t["b"])]
+        outs = [replay_call(rb, ["feel", e])[1] for e in exprs]
+        neg = replay_unary_tests(rb, t["x"], "not(%s %s)" % (sym, t["b"]))
+        bad = outs[0] != outs[1] or (outs[1] in ("VALUE true", "VALUE false") and neg != ("VALUE false" if outs[1] == "VALUE true" else "VALUE true"))
+        return bad, "%s -> %s ; %s -> %s ; input %s against entry not(%s %s) -> %s" % (exprs[0], outs[0], exprs[1], outs[1], t["x"], sym, t["b"], neg)
+    e_in, e_eq1, e_eq2 = "%s in (%s, %s)" % (t["x"], t["b"], t["c"]), "%s = %s" % (t["x"], t["b"]), "%s = %s" % (t["x"], t["c"])
+    o = [replay_call(rb, ["feel", e])[1] for e in (e_in, e_eq1, e_eq2)]
+    want = "VALUE true" if "VALUE true" in o[1:] else "VALUE false"
+    neg = replay_unary_tests(rb, t["x"], "not(%s, %s)" % (t["b"], t["c"]))
+    bad = o[0] != want or (i["x"]["kind"] != "Date" and neg != ("VALUE false" if want == "VALUE true" else "VALUE true"))
+    return bad, "%s -> %s (%s -> %s, %s -> %s); entry not(..) -> %s" % (e_in, o[0], e_eq1, o[1], e_eq2, o[2], neg)
+
+
+def replay_unary_tests(rb, x, tests):
+    _, out, _ = replay_call(rb, ["unary_tests", x, tests])
+    return out.strip()
 
 
 # ----------------------------------------------------------------------------- native replay through a generated DMN model
